@@ -401,8 +401,51 @@ fn gen_branch_sc(r: &mut Rng, max_trains: usize) -> Option<Scenario> {
     Some(Scenario { dn, trains, dirs })
 }
 
+/// shorten a generated (flat_link) link consistently: length, the two elevation points (grade kept), the speed limit extent
+fn shorten(net: &mut [Link], idx: usize, new_len: f64) {
+    let m = |x: f64| uc::M * x;
+    let l = &mut net[idx];
+    let old = l.length.value;
+    if l.elevs.len() == 2 && old > 0.0 {
+        let (e0, e1) = (l.elevs[0].elev.value, l.elevs[1].elev.value);
+        l.elevs[1].offset = m(new_len);
+        l.elevs[1].elev = m(e0 + (e1 - e0) * new_len / old);
+    }
+    if let Some(ss) = l.speed_set.as_mut() { for sl in ss.speed_limits.iter_mut() { if sl.offset_end.value > new_len { sl.offset_end = m(new_len); } if sl.offset_start.value > new_len { sl.offset_start = m(new_len); } } }
+    l.length = m(new_len);
+}
+
 fn gen_sc(r: &mut Rng, max_trains: usize) -> (Scenario, &'static str) {
-    let class = r.below(8);
+    let class = r.below(9);
+    if class == 8 {
+        // terminal segments shorter than the trains: a train ends its trip still straddling earlier links; followers to
+        // the same destination and opposing trains that depart later from the approach need exactly those links
+        let n_main = r.usize(4, 8);
+        let mut siding_at: Vec<usize> = vec![];
+        let mut k = 2;
+        while k + 2 < n_main { if r.chance(0.6) { siding_at.push(k); k += 2; } else { k += 1; } }
+        let lock = r.chance(0.3);
+        let mut dn = gen_disp_net(r, n_main, &siding_at, lock);
+        for &k in &[0usize, 1, n_main - 2, n_main - 1] {
+            if siding_at.contains(&k) { continue; }
+            let len = r.range(1, 8) as f64 * 250.0;
+            let (a, b) = (dn.main_fwd[k] as usize, dn.main_rev[k] as usize);
+            // the flipped twin runs the other way: same length, mirrored elevations are rebuilt by the same rule
+            shorten(&mut dn.net, a, len);
+            shorten(&mut dn.net, b, len);
+        }
+        let nt = r.usize(3, max_trains);
+        let mut trains = vec![];
+        let mut dirs = vec![];
+        for t in 0..nt {
+            let east = if t < 2 { true } else { r.chance(0.5) };
+            let (o, d) = if east { (dn.main_fwd[0], dn.main_fwd[n_main - 1]) } else { (dn.main_rev[n_main - 1], dn.main_rev[0]) };
+            let depart = if t == 0 { 0.0 } else { r.range(0, 12) as f64 * 600.0 };
+            trains.push(gen_train(r, &format!("T{}", t + 1), vec![location("O", o)], vec![location("D", d)], depart));
+            dirs.push(east);
+        }
+        return (Scenario { dn, trains, dirs }, "short_terminal_links");
+    }
     if class >= 6 {
         // the network families of block c04 (crossing lines, junctions, yards, short links), with departures up to
         // three hours apart: followers close up behind their leader inside one link before the opposing train moves
